@@ -87,6 +87,8 @@ thread_local! {
     pub static PANIC_SEQ: Cell<usize> = const { Cell::new(usize::MAX) };
     pub static PANIC_MSG: RefCell<String> = const { RefCell::new(String::new()) };
     pub static IN_CASE: Cell<bool> = const { Cell::new(false) };
+    /// protocol index of the case / step that is running (for `emit_monitor_now`)
+    pub static CUR_IDX: Cell<usize> = const { Cell::new(0) };
 }
 
 pub fn install_panic_hook() {
@@ -107,6 +109,17 @@ pub fn install_panic_hook() {
             PANIC_MSG.with(|m| *m.borrow_mut() = format!("{msg}{loc}"));
         });
     }));
+}
+
+/// Print a monitor line for the running case at once (and flush): for findings after which the
+/// process may not live to the end of the case (a released block that is used again).  The
+/// buffered writer was flushed when the case started, so the order of lines is kept.
+pub fn emit_monitor_now(m: &str) {
+    let idx = CUR_IDX.with(|c| c.get());
+    let so = std::io::stdout();
+    let mut l = so.lock();
+    let _ = writeln!(l, "M {idx} {}", m.replace('\n', " "));
+    let _ = l.flush();
 }
 
 pub fn last_panic_msg() -> String {
@@ -155,6 +168,7 @@ pub fn run_case(cx: &mut Cx, query: String, f: impl FnOnce(&mut CaseOut)) {
         return;
     }
     cx.ran += 1;
+    CUR_IDX.with(|c| c.set(idx));
     let mut out = CaseOut::default();
     crate::types::reset_logs();
     PANIC_SEQ.with(|p| p.set(usize::MAX));
@@ -215,6 +229,7 @@ impl Seq<'_> {
         let _ = writeln!(self.cx.out, "S {idx} {query}");
         let _ = self.cx.out.flush();
         self.held = Some((idx, None, vec![]));
+        CUR_IDX.with(|c| c.set(idx));
         self.cx.ran += 1;
         PANIC_SEQ.with(|p| p.set(usize::MAX));
     }
